@@ -94,7 +94,7 @@ impl Scenario for C09 {
     fn runs(&self, tier: Tier) -> u64 {
         match tier {
             Tier::Quick => 30_000,
-            Tier::Thorough => 1_500_000,
+            Tier::Thorough => 8_000_000,
         }
     }
 
